@@ -30,7 +30,7 @@ func TestMain(m *testing.M) {
 			"Key CLASSES (size / curve; keyclass_test.go): ECDSA keys on every curve the API takes - P-224, P-256, P-384, P-521 - from a seeded scalar through ECDSAKeyPairFromKey or per process from "+
 			"GenerateECDSAKeyPairWithCurve; RSA keys at and next to the documented bounds: 2048 (= MinRsaKeyBits, GenerateRSAKeyPair), 2049 (GenerateRSAKeyPair per process), 8191 and 8192 (= the documented maximum; fixtures "+
 			"assembled from two openssl-made primes with math/big and handed over through KeyPairFromStdKey). Every generator of a key (drawKey / drawSigner / envelope signers) draws the class: curves with weights "+
-			"P-256 20/32 and 4/32 each other curve (envelope signers 29/32 and 1/32), RSA 2048:2049 = 3:1, and - only where a key signs a few times per case (TestKeyRoundTrip, TestSignVerify, TestPeerstoreConsume signers, envelope signers) - "+
+			"P-256 26/32 and 2/32 each other curve (envelope signers 29/32 and 1/32), RSA 2048:2049 = 3:1, and - only where a key signs a few times per case (TestKeyRoundTrip, TestSignVerify, TestPeerstoreConsume signers, TestEnvelopeMutation signers) - "+
 			"8191/8192-bit keys in 2 (envelopes 1) of 256 RSA draws (0.1 s per signature); label class:<class> counts them per test. TestKeySizesAndCurves draws (class, way the key reaches the library) with equal weights from "+
 			"{4 curves} x {generate, std = ECDSAKeyPairFromKey, wire = Unmarshal{Private,Public}Key of crypto/x509 DER framed with protowire} + RSA {2048, 2049} x {generate, std = KeyPairFromStdKey, wire} + RSA 8192 x {std, wire} + RSA 8191 x {wire} "+
 			"+ RSA {2047, 8193} x {wire} (one step OUTSIDE the bounds) and applies the whole key contract: Sign/Verify (own message, mutated message, another key of the type), public and private marshal/unmarshal round trip through every exported path, "+
